@@ -328,8 +328,14 @@ PROPS["C02"]["prop_modules"] = ["Props.C02", "Props.C02Vars"]
 _sched("C03", "Theorems over every accepted trace: after a command failure that is not ignored no later non-deferred entry of that activation starts "
               "(failStopMon); the failure propagates to callers (task: entries) and dependents (deps), which start nothing further; ignore_error is exact "
               "(command level: that shell command's exit status only; task level: exit statuses of its own entries only); exit codes from Gen.Codes: "
-              "201 / the command's status with --exit-code for own commands, callees and dependencies (one level + chain lemma). Full status statement "
-              "refuted for one corner (a top-level call that became a dedup waiter gets the raw error: exit 1) by a machine-checked counterexample.")
+              "201 / the command's status with --exit-code for own commands, callees and dependencies (one level + chain lemma). Status at full "
+              "strength (C03_status_full, a theorem since the fix of C03-dedup-waiter-status): the execution of a task ends with the bare failure and "
+              "a marker (Outcome); every activation that takes it - the executor and every dedup waiter - returns its own wrapping (wrapFor, "
+              "OutInv_sound), so in every reachable configuration a top-level activation, executor or waiter, never returns a bare exit status nor a "
+              "doubly wrapped TaskRunError and returns TaskRunError{bare error} for a failed command (C03_waiter_as_executor, C03_no_double_wrap). "
+              "The raw monitor C03s (Run's error well shaped, no dependency group reports a TaskRunError) is proved sound for every accepted run "
+              "(C03_statusMon_sound) and evaluated on every trace of the real executor; a generator stream makes top-level callers wait for "
+              "indirectly started failing executions and vice versa.")
 PROPS["C16"] = {
     "lean": "Props.C16", "domains": [{"name": "decode", "env": {"TASK_X_REMOTE_TASKFILES": "1"}}],
     "trusted": ["yaml.v3, chroma, go-task/template and mvdan/sh themselves do not panic (every byte sequence reaches Task only through them); "
@@ -440,18 +446,6 @@ def _sched_dedup_cycle(case):
     return any(t.get("run") != "always" and reach(i, i) for i, t in enumerate(ts))
 
 
-def _c03_waiter_status(m):
-    """C03-dedup-waiter-status: the outcome a deduplicated task's waiters receive is the error exactly as the one real execution
-    returned it to ITS caller: a top-level call that became a waiter of an execution started as a dependency gets the bare exit
-    status (process exits 1); the caller of a waiter on a top-level execution gets a doubly wrapped error (201 even with
-    --exit-code).  Narrow: the trace is accepted, every other verdict is 1, only C03s is 0, and the trace contains a waiter."""
-    if m.get("domain") != "sched" or not m["model"].startswith("accept "):
-        return False
-    v = dict(t.split("=") for t in m["model"].split()[1:] if "=" in t)
-    others_ok = all(x == "1" for k, x in v.items() if k != "C03s")
-    return others_ok and v.get("C03s") == "0" and " waiter " in m["case_line"]
-
-
 def _c07_once_cycle(m):
     """C07-once-cycle-deadlocks: a reference cycle through a run: once / when_changed task never ends: the inner reference
     waits for the execution that is its own ancestor.  Narrow: the run hung, the model confirms the reached configuration
@@ -462,7 +456,6 @@ def _c07_once_cycle(m):
 
 FINDING_PREDICATES = {
     "C07-once-cycle-deadlocks": _c07_once_cycle,
-    "C03-dedup-waiter-status": _c03_waiter_status,
     "C11-dynamic-cache-ignores-env": _c11_env_cache,
     "C19-cli-values-are-templated": _c19_values_templated,
     "C19-no-value-text-deleted": _c19_no_value_deleted,
